@@ -2,9 +2,9 @@
 from corr import style_family
 from oracles import c20 as oracle
 
-GEN = ["Defaults"]
-LEAN_TARGETS = ["MagpyVerif.Props.C20"]
-PROPS = ["MagpyVerif.Props.C20"]
+GEN = ["Defaults", "StyleTemp"]
+LEAN_TARGETS = ["MagpyVerif.Props.C20", "MagpyVerif.Props.C20b"]
+PROPS = ["MagpyVerif.Props.C20", "MagpyVerif.Props.C20b"]
 
 
 def run(ctx, model_ok):
